@@ -15,6 +15,7 @@ import (
 	"encoding/json"
 	"fmt"
 	"os"
+	"os/exec"
 	"path/filepath"
 	"sort"
 	"strconv"
@@ -958,7 +959,73 @@ func metaBatch(c *Ctx, n int) {
 	}
 }
 
+// ------------------------------------------------------------------------------------------------ cli defaults
+
+// cliChecks runs the command built from cmd/gojq (cli/cli.go: default module paths "~/.jq",
+// "$ORIGIN/../lib/gojq", "$ORIGIN/../lib" when no -L is given) in a temp layout; implementation-only.
+func cliChecks(c *Ctx, bin string) {
+	e := newEnv()
+	defer e.close()
+	home := filepath.Join(e.root, "home")
+	exe := filepath.Join(e.root, "prefix", "bin", "gojq")
+	data, err := os.ReadFile(bin)
+	if err != nil {
+		c.Violation("harness: cannot read %s: %v", bin, err)
+		return
+	}
+	os.MkdirAll(filepath.Dir(exe), 0o755)
+	if err := os.WriteFile(exe, data, 0o755); err != nil {
+		c.Violation("harness: cannot install the gojq binary: %v", err)
+		return
+	}
+	marker := func(p string) { mustWrite(p, "def marker: "+strconv.Quote(e.canon(p))+";\n") }
+	run := func(args ...string) string {
+		cmd := exec.Command(exe, args...)
+		cmd.Env = []string{"HOME=" + home, "PATH=/usr/bin:/bin"}
+		cmd.Dir = e.root
+		out, _ := cmd.CombinedOutput()
+		return strings.TrimSpace(e.canon(string(out)))
+	}
+	expect := func(what, got, want string) {
+		c.Nlines++
+		c.Count("cli")
+		if got != want {
+			c.Violation("cli: %s: got %q, expected %q", what, got, want)
+		}
+	}
+	// 1. ~/.jq is a FILE: auto-included
+	mustWrite(filepath.Join(home, ".jq"), "def cf: \"init\";\n")
+	marker(filepath.Join(e.root, "prefix", "lib", "gojq", "o.jq"))
+	marker(filepath.Join(e.root, "prefix", "lib", "o.jq"))
+	marker(filepath.Join(e.root, "prefix", "lib", "o2.jq"))
+	marker(filepath.Join(e.root, "other", "o.jq"))
+	expect("~/.jq file is auto-included", run("-n", "cf"), `"init"`)
+	expect("$ORIGIN/../lib/gojq is searched before $ORIGIN/../lib", run("-n", `import "o" as o; o::marker`), `"/R/prefix/lib/gojq/o.jq"`)
+	expect("$ORIGIN/../lib is searched", run("-n", `import "o2" as o; o::marker`), `"/R/prefix/lib/o2.jq"`)
+	expect("with -L the default paths are not used (no ~/.jq include)", run("-L", filepath.Join(e.root, "other"), "-n", `import "o" as o; o::marker`), `"/R/other/o.jq"`)
+	if got := run("-L", filepath.Join(e.root, "other"), "-n", "cf"); !strings.Contains(got, "function not defined: cf/0") {
+		c.Violation("cli: with -L the ~/.jq file must not be included: got %q", got)
+	}
+	// 2. ~/.jq is a DIRECTORY: a search path, tried before the $ORIGIN paths
+	os.Remove(filepath.Join(home, ".jq"))
+	marker(filepath.Join(home, ".jq", "o.jq"))
+	marker(filepath.Join(home, ".jq", "p", "p.jq"))
+	expect("~/.jq directory is the first search path", run("-n", `import "o" as o; o::marker`), `"/R/home/.jq/o.jq"`)
+	expect("name/name.jq inside ~/.jq", run("-n", `import "p" as p; p::marker`), `"/R/home/.jq/p/p.jq"`)
+	if got := run("-n", "cf"); !strings.Contains(got, "function not defined: cf/0") {
+		c.Violation("cli: a ~/.jq directory must not be included as a file: got %q", got)
+	}
+	// 3. a relative search in the main program is relative to the working directory
+	marker(filepath.Join(e.root, "rel", "q.jq"))
+	expect("search in the main program", run("-n", `import "q" as q {search: "./rel"}; q::marker`), `"/R/rel/q.jq"`)
+}
+
 func runC18(c *Ctx) {
+	for _, a := range c.Args {
+		if strings.HasPrefix(a, "gojq=") {
+			cliChecks(c, strings.TrimPrefix(a, "gojq="))
+		}
+	}
 	pathLines(c, 5*c.N)
 	lookupBatch(c, 3*c.N)
 	visBatch(c, c.N)
